@@ -198,3 +198,44 @@ func H_C12_transaction_root_commits_to_every_transaction() {
 		}
 	}
 }
+
+// The header is whatever a (Byzantine) proposer signed: any total, any root - 32 arbitrary bytes, or a
+// missing / empty root. Two receivers hold that header and are each offered an arbitrary part for the
+// same index with an arbitrary proof (0..2 aunts). Under one signed header an index admits at most one
+// byte string (so no two nodes reassemble different blocks), and a header without a root admits nothing.
+//verif:opt unwind=10 budget_s=900
+func H_C12_one_signed_header_admits_one_byte_string_per_index() {
+	total := 1 + verifCase(3)
+	var root []byte
+	switch verifCase(3) {
+	case 1:
+		root = []byte{}
+	case 2:
+		root = verifNondetBytes(32)
+	}
+	hdr := PartSetHeader{Total: total, Hash: root}
+	idx := verifCase(total)
+	var got [2][]byte
+	var ok [2]bool
+	for k := 0; k < 2; k++ {
+		rx := NewPartSetFromHeader(hdr)
+		naunts := verifCase(3)
+		aunts := make([][]byte, naunts)
+		for i := range aunts {
+			aunts[i] = verifNondetBytes(32)
+		}
+		p := &Part{Index: idx, Bytes: verifNondetBytes(1 + verifCase(2)), Proof: merkle.SimpleProof{Aunts: aunts}}
+		added, err := rx.AddPart(p)
+		ok[k], got[k] = added, p.Bytes
+		verifAssert(added == (err == nil), "first-offer-is-added-or-refused-with-an-error")
+		if added {
+			verifAssert(len(root) == 32, "header-without-a-root-admits-nothing")
+			verifAssert(rx.Count() == 1, "admitted-part-counted")
+		}
+	}
+	verifReach("both-offers-made")
+	if ok[0] && ok[1] {
+		verifReach("both-admitted")
+		verifAssert(bytes.Equal(got[0], got[1]), "one-header-one-byte-string-per-index")
+	}
+}
